@@ -1741,6 +1741,74 @@ theorem graphClone_verdict (fuel : Nat) (allow : Bool) (w : World) (g : Nat) :
     exact h1
   | irregular why => trivial
 
+/-! ### `Function.clone` -/
+
+theorem sim_readFunc {s : St} {A : Sc} (hT : TInv w0 s A) (i : Nat) :
+    Sim (readFunc i) s (wFuncCell w0 i) (fun x s' x0 => s' = s ∧ x = x0) := by
+  unfold wFuncCell wCell
+  cases h : w0[i]? with
+  | none => trivial
+  | some c0 =>
+    cases c0 with
+    | val x => obtain ⟨vs, h1, _⟩ := hT.srcVal h; simp [Sim, WRes.bind, readFunc, h1]
+    | func x => have := hT.src h (by intro v hv; cases hv); exact ⟨x, s, by simp [readFunc, this], rfl, rfl⟩
+    | node x => have := hT.src h (by intro v hv; cases hv); simp [Sim, WRes.bind, readFunc, this]
+    | graph x => have := hT.src h (by intro v hv; cases hv); simp [Sim, WRes.bind, readFunc, this]
+    | type x => have := hT.src h (by intro v hv; cases hv); simp [Sim, WRes.bind, readFunc, this]
+    | shape x => have := hT.src h (by intro v hv; cases hv); simp [Sim, WRes.bind, readFunc, this]
+    | dict x => have := hT.src h (by intro v hv; cases hv); simp [Sim, WRes.bind, readFunc, this]
+    | attr x => have := hT.src h (by intro v hv; cases hv); simp [Sim, WRes.bind, readFunc, this]
+    | model x => have := hT.src h (by intro v hv; cases hv); simp [Sim, WRes.bind, readFunc, this]
+    | tensor x => have := hT.src h (by intro v hv; cases hv); simp [Sim, WRes.bind, readFunc, this]
+
+theorem run_withFreshMap_fst {α : Type} (m : M α) (w : World) :
+    (run (withFreshMap m) w).1 = (m { w := w }).1 := by
+  simp only [run, withFreshMap]
+
+/-- the walker's verdict decides the outcome of `Function.clone` -/
+theorem funcClone_verdict (fuel : Nat) (w : World) (f : Nat) :
+    match funcVerdict fuel w f with
+    | .ok _ => ∃ f' w', run (funcClone fuel f) w = (.ok f', w')
+    | .err e => (run (funcClone fuel f) w).1 = .error e
+    | .irregular _ => True := by
+  have hrec : ∀ g s A, TInv w s A → Sim (cloneGraph false fuel g) s (wGraph w false fuel g A)
+      (fun _ s' A' => Step w s s' A') := fun g s A hT => sim_cloneGraph false fuel g s A hT
+  have hbody : Sim (do
+        let fs ← readFunc f
+        let g' ← cloneGraph false fuel fs.graph
+        let attrs ← mapM' (fun ka => do
+            let as ← readAttr ka.2
+            cloneAttr (cloneGraph false fuel) as.name ka.2) fs.attrs
+        alloc (.func { domain := fs.domain, name := fs.name, overload := fs.overload, graph := g',
+                       attrs := dictOf attrs })) { w := w } (funcVerdict fuel w f) (fun _ _ _ => True) := by
+    unfold funcVerdict
+    wbind (sim_readFunc (TInv.init w) f) with fs s1 fs0 hq
+    obtain ⟨rfl, rfl⟩ := hq
+    wbind (hrec fs.graph _ _ (TInv.init w)) with g' s2 A1 hq2
+    refine Sim.bindLast (sim_mapM' (P := fun _ _ _ => True) (fun _ => True) (fun _ _ _ _ => trivial)
+      (fun _ _ _ _ _ _ _ _ => trivial)
+      (fun (ka : String × Nat) s A hT _ => by
+        wbind (sim_readAttr hT ka.2) with as s3 as0 hq3
+        obtain ⟨rfl, rfl, _, _⟩ := hq3
+        exact (sim_cloneAttr hrec hT as.name ka.2).mono (fun _ _ _ h => ⟨h, trivial⟩))
+      fs.attrs s2 A1 hq2.1 trivial) ?_
+    intro attrs s3 A3 _
+    exact ⟨_, _, rfl, trivial⟩
+  have e0 : ({ w := w, vm := [], pend := [], created := [] } : St) = { w := w } := rfl
+  cases hv : funcVerdict fuel w f with
+  | ok A =>
+    rw [hv] at hbody
+    obtain ⟨f', s', h1, _⟩ := hbody
+    refine ⟨f', s'.w, ?_⟩
+    simp only [run, funcClone, withFreshMap]
+    rw [e0, h1]
+  | err e =>
+    rw [hv] at hbody
+    unfold funcClone
+    rw [run_withFreshMap_fst]
+    exact hbody
+  | irregular why => trivial
+
 end
 end Total
 end IrVerif.Clone
